@@ -2,6 +2,7 @@ import CopVerif.Base.FloatIO
 import CopVerif.Base.FloatFns
 import CopVerif.Gen.UniConst
 import CopVerif.Model.RootFind
+import CopVerif.Model.Families
 /-!
   Driver commands for the GENERATED univariate definitions (`Gen.UniConst`) evaluated at `Float`
   (property C03).  `Φ` is `FloatFns.ndtr` (Cody's erfc), the root finders are the C18 models.
@@ -18,6 +19,9 @@ import CopVerif.Model.RootFind
   * `ppfpre q*`                                -> `ok e*` | `err ValueError`; `e` = `±inf`, or `0.5`
                                                   for a lane that goes to the root finder
   * `kdeppf (bisect|chandrupatla) cov n x*n w*n q*`   -> `ok x*` | `err <kind>`
+  * `cf <family> <fn> p* x*`                   -> `ok y*`: the closed forms of `Model/Families.lean`;
+      family/params: `uniform loc scale`, `norm loc scale`, `loglaplace c loc scale`, `truncnorm a b loc scale`;
+      fn: `pdf | cdf | ppf | logpdf` (no `ppf` for norm / truncnorm); `Φ = FloatFns.ndtr`, `s2pi = √(2π)`
 -/
 namespace CopVerif.Driver
 open CopVerif CopVerif.IO CopVerif.Gen.UniConst
@@ -67,8 +71,52 @@ def takeKde (n : Nat) (vals : List Float) : Option (List Float × List Float × 
   if vals.length < 2 * n then none
   else some (vals.take n, (vals.drop n).take n, vals.drop (2 * n))
 
+def s2piF : Float := Float.sqrt (2.0 * 3.141592653589793)
+
+/-- closed form `family.fn` with parameters `ps` -/
+def closedForm (family fn : String) (ps : List Float) : Option (Float → Float) :=
+  let Φ := FloatFns.ndtr
+  match family, ps with
+  | "uniform", [loc, scale] =>
+    match fn with
+    | "pdf" => some (Model.Families.uniformPdf loc scale)
+    | "cdf" => some (Model.Families.uniformCdf loc scale)
+    | "ppf" => some (Model.Families.uniformPpf loc scale)
+    | "logpdf" => some (Model.Families.uniformLogpdf loc scale)
+    | _ => none
+  | "norm", [loc, scale] =>
+    match fn with
+    | "pdf" => some (Model.Families.normPdf s2piF loc scale)
+    | "cdf" => some (Model.Families.normCdf Φ loc scale)
+    | "logpdf" => some (Model.Families.normLogpdf s2piF loc scale)
+    | _ => none
+  | "loglaplace", [c, loc, scale] =>
+    match fn with
+    | "pdf" => some (Model.Families.loglaplacePdf c loc scale)
+    | "cdf" => some (Model.Families.loglaplaceCdf c loc scale)
+    | "ppf" => some (Model.Families.loglaplacePpf c loc scale)
+    | "logpdf" => some (Model.Families.loglaplaceLogpdf c loc scale)
+    | _ => none
+  | "truncnorm", [a, b, loc, scale] =>
+    match fn with
+    | "pdf" => some (Model.Families.truncnormPdf Φ s2piF a b loc scale)
+    | "cdf" => some (Model.Families.truncnormCdf Φ a b loc scale)
+    | "logpdf" => some (Model.Families.truncnormLogpdf Φ s2piF a b loc scale)
+    | _ => none
+  | _, _ => none
+
+def nParams : String → Nat
+  | "uniform" => 2 | "norm" => 2 | "loglaplace" => 3 | "truncnorm" => 4 | _ => 0
+
 def uniconst (ws : List String) : String :=
   match ws with
+  | "cf" :: family :: fn :: rest =>
+    match parseFloats rest with
+    | some vals =>
+      match closedForm family fn (vals.take (nParams family)) with
+      | some f => "ok " ++ showFloats ((vals.drop (nParams family)).map f)
+      | none => "bad-op"
+    | none => "bad-op"
   | ["epsilon"] => "ok " ++ showFloat (epsilon : Float)
   | ["tables"] => ucTables
   | "ndtr" :: rest =>
